@@ -1,2 +1,179 @@
-(* C17 - placeholder while the proofs are being written. *)
-From PV Require Import Base.Prelude.
+(* C17 - section accessors read back what was set and touch nothing else; clipping as
+   documented. Property theorems only; proofs live in Proofs/Accessors{Base,Simple,Loops}.v
+   and Proofs/C17Proofs.v.
+
+   step_model / run_model (Model/Accessors.v) mirror the accessor methods of gfx.py, map.py,
+   gff.py, sfx.py, music.py around the kernels regenerated from the source (Generated/K_*.v);
+   exceptions are values. spec_step (Spec/PlainMem.v) is the plain model of the documented
+   semantics on the five regions, in_contract the documented argument ranges, wf_mem the
+   region sizes and byte-ness. *)
+From PV Require Import Base.Prelude Model.Accessors Spec.PlainMem Instances.HoldsC17
+  Proofs.AccessorsBase Proofs.AccessorsSimple Proofs.AccessorsLoops Proofs.C17Proofs Proofs.AccessorsGrid Proofs.HoldsC17Proofs.
+
+(* one call: for EVERY well-formed memory and EVERY in-contract call of any of the 18
+   accessors (any id / coordinates / offsets, rows of any number, length and raggedness, any
+   amount of overhang across the right and bottom edges, TRANSPARENT pixels) the code's model
+   does not raise, returns exactly the value the plain model predicts and leaves exactly the
+   memory the plain model predicts - hence clipped data neither wraps, nor alters other
+   cells, nor raises - and that memory is again well formed *)
+Theorem C17_refines : forall s o, wf_mem s -> in_contract o = true ->
+  step_model true s o = Ok (spec_step s o) /\ wf_mem (fst (spec_step s o)).
+Proof. exact c17_refines. Qed.
+Print Assumptions C17_refines.
+
+(* histories of any length: run_spec (Proofs/C17Proofs.v) threads spec_step through the list
+   and collects the returned values *)
+Theorem C17_history : forall ops s, wf_mem s -> forallb in_contract ops = true ->
+  run_model true s ops = Ok (run_spec s ops) /\ wf_mem (fst (run_spec s ops)).
+Proof. exact c17_history. Qed.
+Print Assumptions C17_history.
+
+(* frame, about the plain model itself and without any hypothesis on memory or arguments:
+   a byte of any region that is not in the footprint of the call keeps its value, and no
+   region changes size. footprint o r a is a computable predicate (Proofs/C17Proofs.v): for
+   set_sprite exactly the bytes holding a non-transparent, non-clipped pixel; for map cells
+   and rectangles the map byte for rows 0-31 and gfx byte 4096 + (y-32)*128 + x for rows
+   32-63; one byte for a flag / channel op; two for a note; only the given (non-None) ones for
+   sfx / music properties; nothing for getters *)
+Theorem C17_frame : forall s o r a, 0 <= a -> footprint o r a = false ->
+  at_ (reg r (fst (spec_step s o))) a = at_ (reg r s) a.
+Proof. exact c17_frame. Qed.
+Print Assumptions C17_frame.
+
+Theorem C17_frame_len : forall s o r, zlen (reg r (fst (spec_step s o))) = zlen (reg r s).
+Proof. exact c17_frame_len. Qed.
+Print Assumptions C17_frame_len.
+
+Theorem C17_getter_pure : forall s o, is_getter o = true -> fst (spec_step s o) = s.
+Proof. exact c17_getter_pure. Qed.
+Print Assumptions C17_getter_pure.
+
+(* get-after-set laws of the plain model (and so, by C17_refines, of the code's model) *)
+Theorem C17_pixel_readback : forall g x y c x' y',
+  zlen g = 8192 -> Forall byte g -> 0 <= x <= 127 -> 0 <= y <= 127 -> 0 <= c <= 15 ->
+  0 <= x' <= 127 -> 0 <= y' <= 127 ->
+  get_px (set_px g x y c) x' y' = if (x' =? x) && (y' =? y) then c else get_px g x' y'.
+Proof. exact get_px_set_px. Qed.
+Print Assumptions C17_pixel_readback.
+
+Theorem C17_cell_readback : forall m g x y v x' y',
+  zlen m = 4096 -> zlen g = 8192 -> 0 <= x <= 127 -> 0 <= y <= 63 -> 0 <= x' <= 127 -> 0 <= y' <= 63 ->
+  let mg' := set_cell (m, g) x y v in
+  get_cell (fst mg') (snd mg') x' y' = if (x' =? x) && (y' =? y) then v else get_cell m g x' y'.
+Proof. exact get_cell_set_cell. Qed.
+Print Assumptions C17_cell_readback.
+
+Theorem C17_mapget_after_mapset : forall s x y v, wf_mem s -> in_contract (MapSet x y v) = true ->
+  snd (spec_step (fst (spec_step s (MapSet x y v))) (MapGet x y)) = VInt v.
+Proof. exact mapget_after_mapset. Qed.
+Print Assumptions C17_mapget_after_mapset.
+
+Theorem C17_flagget_after_flagreset : forall s id fl q, wf_mem s -> in_contract (FlagReset id fl) = true ->
+  snd (spec_step (fst (spec_step s (FlagReset id fl))) (FlagGet id q)) = VInt (Z.land fl q).
+Proof. exact flagget_after_flagreset. Qed.
+Print Assumptions C17_flagget_after_flagreset.
+
+(* the fields given are read back, the fields passed as None keep their old value *)
+Theorem C17_noteget_after_noteset : forall s id n p w v e,
+  wf_mem s -> in_contract (NoteSet id n p w v e) = true ->
+  exists p0 w0 v0 e0, snd (spec_step s (NoteGet id n)) = VTuple [p0; w0; v0; e0] /\
+    snd (spec_step (fst (spec_step s (NoteSet id n p w v e))) (NoteGet id n)) =
+    VTuple [odef p p0; odef w w0; odef v v0; odef e e0].
+Proof. exact noteget_after_noteset. Qed.
+Print Assumptions C17_noteget_after_noteset.
+
+Theorem C17_changet_after_chanset : forall s id ch pat, wf_mem s -> in_contract (ChanSet id ch pat) = true ->
+  snd (spec_step (fst (spec_step s (ChanSet id ch pat))) (ChanGet id ch)) = VOptInt pat.
+Proof. exact changet_after_chanset. Qed.
+Print Assumptions C17_changet_after_chanset.
+
+(* the two block writes, cell by cell: after set_sprite EVERY pixel (X, Y) of the 128 x 128 sheet
+   holds the sprite's value at offset (X - first_x, Y - first_y) if the (ragged) sprite data has
+   a non-TRANSPARENT value there, and its old value otherwise - read-back, frame, transparency
+   and clipping (nothing wraps: the equation is per pixel) in one statement. grid_at
+   (Proofs/AccessorsGrid.v) looks a value up in a list of rows. *)
+Theorem C17_set_sprite_pixels : forall g id xo yo rows X Y,
+  zlen g = 8192 -> Forall byte g -> in_contract (SetSprite id xo yo rows) = true ->
+  0 <= X <= 127 -> 0 <= Y <= 127 ->
+  get_px (spec_set_sprite g id xo yo rows) X Y =
+  match grid_at is_transparent rows (X - (id mod 16 * 8 + xo)) (Y - (id / 16 * 8 + yo)) with
+  | Some v => v
+  | None => get_px g X Y
+  end.
+Proof. exact set_sprite_pixels. Qed.
+Print Assumptions C17_set_sprite_pixels.
+
+(* likewise every cell of the 128 x 64 map after set_rect_tiles, rows 32-63 read through
+   sprite memory *)
+Theorem C17_set_rect_cells : forall m g x y rows X Y,
+  zlen m = 4096 -> zlen g = 8192 -> Forall byte m -> Forall byte g ->
+  in_contract (MapSetRect x y rows) = true -> 0 <= X <= 127 -> 0 <= Y <= 63 ->
+  let st := spec_set_rect (m, g) x y rows in
+  get_cell (fst st) (snd st) X Y =
+  match grid_at no_transparent rows (X - x) (Y - y) with Some v => v | None => get_cell m g X Y end.
+Proof. exact set_rect_cells. Qed.
+Print Assumptions C17_set_rect_cells.
+
+(* a Map without a Gfx attached (has_gfx = false: "Map must have a Gfx if y > 31"): calls that
+   stay inside rows 0-31 behave exactly as with it; cell accesses to rows 32-63 are refused *)
+Theorem C17_refines_nogfx : forall s o, wf_mem s -> in_contract o = true -> no_gfx_ok o = true ->
+  step_model false s o = Ok (spec_step s o).
+Proof. exact c17_refines_nogfx. Qed.
+Print Assumptions C17_refines_nogfx.
+
+Theorem C17_nogfx_refuses : forall s x y v, 32 <= y ->
+  step_model false s (MapGet x y) = Err AssertionError /\ step_model false s (MapSet x y v) = Err AssertionError.
+Proof. exact c17_nogfx_refuses. Qed.
+Print Assumptions C17_nogfx_refuses.
+
+(* the instance predicate evaluated (extracted) by the monitor on the implementation's real
+   observations: `true` means exactly "did not raise, returned the plain model's value, left
+   the plain model's memory"; and the code's model passes it on every call / history *)
+Theorem C17_monitor_sound : forall s o raised v s', wf_mem s -> in_contract o = true ->
+  (holds_C17 s o raised v s' = true <-> raised = false /\ s' = fst (spec_step s o) /\ v = snd (spec_step s o)).
+Proof. exact holds_C17_sound. Qed.
+Print Assumptions C17_monitor_sound.
+
+Theorem C17_model_holds : forall s o s' v, step_model true s o = Ok (s', v) -> holds_C17 s o false v s' = true.
+Proof. exact model_holds_C17. Qed.
+Print Assumptions C17_model_holds.
+
+Theorem C17_model_holds_seq : forall ops s final vs, run_model true s ops = Ok (final, vs) ->
+  holds_C17_seq s ops (map (fun v => (false, v)) vs) final = true.
+Proof. exact model_holds_C17_seq. Qed.
+Print Assumptions C17_model_holds_seq.
+
+(* non-vacuity: a concrete sprite stored at the bottom right corner, crossing both edges:
+   sprite 255 with offsets (5, 6) starts at pixel (125, 126); column 128 and row 128 are
+   clipped, one pixel is TRANSPARENT. The call is in contract on a well-formed memory; its
+   footprint is the four bytes 8126, 8127, 8190, 8191; byte 8128 - where pixel (128, 126)
+   would land if it wrapped into the next row - is not touched. *)
+Definition ex_mem : mem :=
+  {| m_gfx := repeat 255 (Z.to_nat 8192); m_map := repeat 1 (Z.to_nat 4096); m_gff := repeat 2 (Z.to_nat 256);
+     m_music := repeat 3 (Z.to_nat 256); m_sfx := repeat 4 (Z.to_nat 4352) |}.
+Definition ex_op : op := SetSprite 255 5 6 [[1; 2; 3; 4]; [5; 16; 7; 8]; [9; 10; 11; 12]].
+
+Example C17_nonvacuous :
+  wf_mem ex_mem /\ in_contract ex_op = true /\
+  map (footprint ex_op RGfx) [8125; 8126; 8127; 8128; 8189; 8190; 8191; 0] =
+    [false; true; true; false; false; true; true; false] /\
+  map (at_ (m_gfx (fst (spec_step ex_mem ex_op)))) [8126; 8127; 8128; 8190; 8191] = [31; 50; 255; 95; 127] /\
+  step_model true ex_mem ex_op = Ok (spec_step ex_mem ex_op).
+Proof.
+  assert (W : wf_mem ex_mem).
+  { unfold wf_mem, ex_mem, zlen. cbn [m_gfx m_map m_gff m_music m_sfx]. rewrite !repeat_length.
+    repeat split; try lia;
+      apply Forall_forall; intros x Hx; apply repeat_spec in Hx; subst x; unfold byte; lia. }
+  split; [exact W|]. split; [reflexivity|]. split; [vm_compute; reflexivity|].
+  split; [vm_compute; reflexivity|]. apply C17_refines; [exact W | reflexivity].
+Qed.
+
+(* a rectangle of map cells written across the bottom edge of the upper map half into the
+   rows shared with sprite memory and beyond the right edge *)
+Example C17_nonvacuous_map :
+  let o := MapSetRect 126 31 [[10; 11; 12]; [20; 21; 22]] in
+  in_contract o = true /\
+  map (footprint o RMap) [4093; 4094; 4095] = [false; true; true] /\
+  map (footprint o RGfx) [4096 + 125; 4096 + 126; 4096 + 127; 4096 + 128] = [false; true; true; false] /\
+  snd (spec_step (fst (spec_step ex_mem o)) (MapGetRect 126 31 3 2)) = VRows [[10; 11; 0]; [20; 21; 0]].
+Proof. cbv zeta. repeat split; vm_compute; reflexivity. Qed.
